@@ -252,6 +252,58 @@ func disturb() {
 	})
 }
 
+// zeroMicCase: a LoRaWAN 1.1 uplink whose specified MIC is 00000000 (a value code may take for "not set").  The two
+// halves of that MIC depend on different inputs, so two searches of 2^16 steps find one: the frame counter for the cmacF
+// half, then TxCh and one key byte for the cmacS half.  The library's own functions drive the search; whatever stops it -
+// the wanted MIC or an error - is recorded and judged by the specification.
+func (c *ctx) zeroMicCase() {
+	p := micParams{ver: 1, conf: c.rnd.Uint32(), txdr: uint8(c.rnd.Intn(16)), txch: 0}
+	copy(p.fkey[:], c.bytesN(16))
+	copy(p.skey[:], c.bytesN(16))
+	fp := uint8(1 + c.rnd.Intn(200))
+	mp := &lorawan.MACPayload{FHDR: lorawan.FHDR{FCtrl: lorawan.FCtrl{ACK: true}}, FPort: &fp, FRMPayload: []lorawan.Payload{&lorawan.DataPayload{Bytes: c.bytesN(5)}}}
+	copy(mp.FHDR.DevAddr[:], c.bytesN(4))
+	phy := &lorawan.PHYPayload{MHDR: lorawan.MHDR{MType: lorawan.ConfirmedDataUp, Major: lorawan.LoRaWANR1}, MACPayload: mp}
+	set := func() string {
+		res, _ := observeFast(func() error { return phy.SetUplinkDataMIC(lorawan.LoRaWAN1_1, p.conf, p.txdr, p.txch, p.fkey, p.skey) })
+		return res
+	}
+	emit := func(res string) {
+		ev := M{"ev": "setmic", "dir": "up", "err": res, "frame": phyToVal(phy), "label": "zero-mic"}
+		p.fields(ev)
+		c.emit(ev)
+		if res == "" {
+			c.emit(validateEvent("up", phy, p, "zero-mic"))
+		}
+	}
+	found := false
+	for round := 0; round < 16 && !found; round++ {
+		mp.FHDR.DevAddr[3]++
+		for i := 0; i < 65536 && !found; i++ {
+			mp.FHDR.FCnt = uint32(i)
+			if res := set(); res != "" {
+				emit(res)
+				return
+			}
+			found = phy.MIC[2] == 0 && phy.MIC[3] == 0
+		}
+	}
+	if !found {
+		return
+	}
+	for j := 0; j < 1<<20; j++ {
+		p.txch, p.skey[15], p.skey[14] = uint8(j), uint8(j>>8), uint8(j>>16)
+		if res := set(); res != "" {
+			emit(res)
+			return
+		}
+		if phy.MIC == (lorawan.MIC{}) {
+			emit("")
+			return
+		}
+	}
+}
+
 func (c *ctx) micCase(maxFrm int) {
 	c.provoke()
 	v := c.genDataFrame(false)
@@ -592,8 +644,40 @@ func (c *ctx) methodCase() {
 		ev["err"] = res
 		ev["post"] = phyToVal(phy)
 		c.emit(ev)
+		// the same item LISTS (the caller's own slices) go into a second frame - the same commands for another device, the
+		// same message with the next counter - and the same method is applied to it.  `pre` is what the caller put in.
+		if (name == "EncryptFOpts" || name == "EncryptFRMPayload") && res == "" && c.rnd.Intn(3) == 0 {
+			first := valToPhy(cloneM(v).(M), false)
+			fmp, ok := first.MACPayload.(*lorawan.MACPayload)
+			if !ok {
+				continue
+			}
+			v2 := cloneM(v).(M)
+			v2["devaddr"] = c.ints(4)
+			second := valToPhy(cloneM(v2).(M), false)
+			smp := second.MACPayload.(*lorawan.MACPayload)
+			smp.FHDR.FOpts, smp.FRMPayload = fmp.FHDR.FOpts, fmp.FRMPayload // shared slices
+			ev2 := M{"ev": "method", "name": name, "key": bs(key[:]), "pre": phyToVal(second), "label": "shared-lists"}
+			res2, _ := observeFast(func() error {
+				if name == "EncryptFOpts" {
+					if err := first.EncryptFOpts(key); err != nil {
+						return err
+					}
+					return second.EncryptFOpts(key)
+				}
+				if err := first.EncryptFRMPayload(key); err != nil {
+					return err
+				}
+				return second.EncryptFRMPayload(key)
+			})
+			ev2["err"] = res2
+			ev2["post"] = phyToVal(second)
+			c.emit(ev2)
+		}
 	}
 }
+
+var jaStream lorawan.PHYPayload
 
 func (c *ctx) joinCase() {
 	c.provoke()
@@ -737,6 +821,17 @@ func (c *ctx) joinCase() {
 			rx := &lorawan.PHYPayload{MHDR: lorawan.MHDR{MType: lorawan.JoinAccept, Major: lorawan.Major(c.pick(0, 0, 0, 1))}, MACPayload: &lorawan.DataPayload{Bytes: append([]byte{}, ct[:n-4]...)}}
 			copy(rx.MIC[:], ct[n-4:])
 			d := M{"ev": "decja", "key": bs(key[:]), "pre": phyToVal(rx), "label": "chosen-ciphertext"}
+			if c.rnd.Intn(2) == 0 {
+				// the frame arrives as bytes in a receive loop that re-uses ONE frame variable; the caller keeps the decoded
+				// value, the next join-accept is decoded into the variable, THEN the kept value is decrypted
+				if wb, err := rx.MarshalBinary(); err == nil && jaStream.UnmarshalBinary(wb) == nil {
+					kept := jaStream
+					next := append([]byte{0x20}, c.bytesN(n)...)
+					jaStream.UnmarshalBinary(next)
+					rx = &kept
+					d["label"] = "chosen-ciphertext-kept"
+				}
+			}
 			r2, _ := observeFast(func() error { return rx.DecryptJoinAcceptPayload(key) })
 			d["err"] = r2
 			d["post"] = phyToVal(rx)
@@ -759,6 +854,7 @@ func (c *ctx) joinCase() {
 func drvCrypto(c *ctx) error {
 	switch c.mode {
 	case "mic":
+		c.zeroMicCase()
 		for i := 0; i < c.n; i++ {
 			c.micCase(242)
 		}
